@@ -141,6 +141,25 @@ def probe_histories(items):
     return hs
 
 
+def inplace_fields(ctx):
+    """configuration fields whose container some code of the package mutates in place (from the regenerated write table:
+    '<...>md_config.<field>.<mutator>' / 'config.<field>[...]'): the per-document copy must not share them with the global"""
+    out = set()
+    for w in getattr(ctx, "c15_writes", []):
+        m = re.search(r"(?:md_config|myst_config|config)\.(\w+)\.(?:add|update|append|pop|setdefault|extend|insert|remove|clear|discard)$", w["target"])
+        if m and w["kind"] == "mutating-call":
+            out.add(m.group(1))
+        m = re.search(r"(?:md_config|myst_config)\.(\w+)\[", w["target"])
+        if m:
+            out.add(m.group(1))
+    return out
+
+
+def settings_fields(ctx):
+    """configuration fields that the renderer copies onto document.settings (write targets 'self.document.settings.myst_<field>')"""
+    return sorted({m.group(1) for w in getattr(ctx, "c15_writes", []) for m in [re.search(r"document\.settings\.myst_(\w+)$", w["target"])] if m})
+
+
 def corr(ctx):
     from gen import c15_items
     rows = coq_hist_table()
@@ -183,9 +202,10 @@ def corr(ctx):
                 ctx.count("merge")
                 if out.get("doc") != "MERGE":
                     ctx.disagree("merge_file_level raised", {"kind": "merge", "case": case}, out.get("doc"), "returns a new config")
-                elif out["config_changed"] or out["returned_same_object"] or out["shared_mutable"]:
+                elif out["config_changed"] or out["returned_same_object"] or out["shared_mutable"] or \
+                        [f for f in out.get("all_shared_mutable", []) if f in inplace_fields(ctx)]:
                     ctx.disagree("merge_file_level modified (or shares mutable values with) the global config object, classified FreshObject",
-                                 {"kind": "merge", "case": case}, {k: out[k] for k in ("config_changed", "returned_same_object", "shared_mutable", "before", "after")},
+                                 {"kind": "merge", "case": case}, {k: out.get(k) for k in ("config_changed", "returned_same_object", "shared_mutable", "all_shared_mutable", "before", "after")},
                                  "global config unchanged")
     for p in wanted:
         predicted_leak = p in leak_probes
@@ -306,13 +326,59 @@ def search(ctx):
         meta.append(("fresh", [i]))
     if uncovered:
         ctx.notes.append("configuration fields without a second value for the one-field delta histories: " + ", ".join(uncovered))
+    # histories at the level of ONE parser object (create_md_parser ... md.render(t1); md.render(t2)) and of ONE docutils
+    # settings object shared by several publish calls
+    level_jobs = c15_items.md_reuse_histories(rng, ctx.budget(12, 120, 60)) + c15_items.shared_settings_histories(settings_fields(ctx))
+    ctx.count("level-histories:md_reuse", sum(1 for j in level_jobs if j["kind"] == "md_reuse"))
+    ctx.count("level-histories:shared_settings", sum(1 for j in level_jobs if j["kind"] == "shared_settings"))
     n_hist = ctx.budget(48, 600, 300)
     hlen = ctx.budget(25, 40, 40)
     for _ in range(n_hist):
         h = [ids[rng.randrange(len(ids))] for _ in range(hlen)]
         jobs.append([by_id[i] for i in h])
         meta.append(("hist", h))
-    res = pool_map(_hist_job, jobs)
+    # level histories: each whole history is one job; the reference of every position is the same text alone
+    ljobs, lmeta = [], []
+    for j in level_jobs:
+        ljobs.append([j])
+        lmeta.append(("hist", j))
+        for t in dict.fromkeys(j["texts"]):
+            ljobs.append([dict(j, texts=[t])])
+            lmeta.append(("fresh", (j["kind"], json.dumps(j.get("config") or j.get("settings"), sort_keys=True), t)))
+    res_all = pool_map(_hist_job, jobs + ljobs)
+    res, lres = res_all[:len(jobs)], res_all[len(jobs):]
+    lfresh = {m[1]: r[0] for m, r in zip(lmeta, lres) if m[0] == "fresh"}
+    lreported = set()
+    for m, r in zip(lmeta, lres):
+        if m[0] != "hist":
+            continue
+        j = m[1]
+        for pos, (t, out) in enumerate(zip(j["texts"], r)):
+            ctx.search_cases += 1
+            f = lfresh[(j["kind"], json.dumps(j.get("config") or j.get("settings"), sort_keys=True), t)]
+            if pos > 0:
+                ctx.nontriv((j["kind"], pos, t[:40]))
+            if (out["doc"], out["warn"]) == (f["doc"], f["warn"]):
+                ctx.count(j["kind"] + ":same")
+                continue
+            if j["kind"] == "shared_settings":
+                cur = j["labels"][pos]
+                stale = next((l for l in reversed(j["labels"][:pos]) if l != cur), "nothing")
+                sig = f"shared-settings:{j['field']}:current={cur}:stale-from={stale}"
+                hist = dict(j, texts=j["texts"][:pos + 1], labels=j["labels"][:pos + 1])
+            else:
+                sig = "md-reuse:" + diff_signature(f, out).split(":", 1)[1]
+                hist = dict(j, texts=j["texts"][:pos + 1])
+            ctx.count(j["kind"] + ":differs")
+            if sig in lreported:
+                continue
+            lreported.add(sig)
+            what = ("a document rendered by a parser object that has rendered other documents before differs from the same document rendered by a new parser object"
+                    if j["kind"] == "md_reuse" else
+                    f"publish calls sharing one docutils settings object: the document published after one whose front matter set {j['field']} = "
+                    f"{j['labels'][pos - 1] if pos else '-'} differs from the same document published with a fresh settings object")
+            ctx.fail(sig, {"kind": "history", "history": [hist]}, what, expected={"doc": f["doc"][-1500:], "warn": f["warn"][:500]},
+                     observed={"doc": out["doc"][-1500:], "warn": out["warn"][:500]})
     fresh = {}
     for m, r in zip(meta, res):
         if m[0] == "fresh":
@@ -382,8 +448,8 @@ def search_sphinx(ctx):
     rng = ctx.rng
     n_proj = ctx.budget(3, 24, 12)
     jobs, meta = [], []
-    for p in range(-1, n_proj):
-        proj = c15_items.role_project() if p < 0 else c15_items.gen_project(rng, amsmath=(p % 3 == 2))
+    for p in range(-2, n_proj):
+        proj = c15_items.alias_project() if p == -2 else c15_items.role_project() if p == -1 else c15_items.gen_project(rng, amsmath=(p % 3 == 2))
         names = list(proj["files"])
         shuffled = names[:]
         rng.shuffle(shuffled)
@@ -487,6 +553,15 @@ def replay(ctx, data):
     w = data.get("witness")
     if not w:
         print("replay file names no concrete input:", json.dumps(data.get("no_longer_checks"), default=repr)[:2000])
+        return 1
+    if w.get("kind") == "history" and w["history"] and w["history"][0].get("kind") in ("md_reuse", "shared_settings"):
+        j = w["history"][0]
+        res = pool_map(_hist_job, [[j], [dict(j, texts=[j["texts"][-1]])]], procs=2)
+        later, fresh = res[0][-1], res[1][0]
+        if (later["doc"], later["warn"]) == (fresh["doc"], fresh["warn"]):
+            print("replay: the last document gives the same output as with a new parser / settings object (property holds on this input)")
+            return 0
+        print("replay: the last document of the history differs from the fresh one:", diff_signature(fresh, later))
         return 1
     if w.get("kind") == "history":
         hist = w["history"]
